@@ -8,9 +8,15 @@
    History cases (class ..+cache, ..+cache+badvers of the harness) have the same format: their
    queries were asked one after the other, behind a warm-up that is not part of the case, through
    handlers whose response cache is enabled.  The serve model has no cache, and both relations
-   are evaluated per query exactly as for the other cases: a reply served from the cache must be
-   the reply the cache-free model computes, and BADVERS is owed whatever the cache holds. *)
+   are evaluated per query: BADVERS is owed whatever the cache holds, and a reply served from
+   the cache must be the reply the cache-free model computes for the spelling of the name that
+   POPULATED the entry (the cache key holds the lower-cased name, the cached sections keep the
+   owner names as first asked), re-addressed to this request: its id and its question bytes
+   exactly as asked.  That is the shape of C12_cached_is_case_variant_of_uncached
+   (requestion (serve .. (recase r a) ..) (question of r)); the spelling [a] is part of the case
+   ([c_first], per query and backend: present when the handler counted a cache hit). *)
 From DnsV Require Export Base.Bytes Model.Store Model.LookupV1 Model.LookupV2 Model.Serve Spec.Answer Spec.Rows Spec.KeysV2 Run.Core.
+From DnsV Require Import Model.Compose.
 Open Scope N_scope.
 
 (* what one backend wrote for a query received over UDP: the limit is max(512, advertised EDNS
@@ -18,11 +24,43 @@ Open Scope N_scope.
    (without OPT) of this reply and of the reply to the same query over TCP, where nothing is dropped *)
 Record udpobs := mkU { u_limit : N; u_len : N; u_written : bool; u_tc : bool; u_n : N; u_ntcp : N;
                        u_panic : bool; u_packerr : bool }.
-Record case := mkC { c_file : fcase; c_udp : list (list udpobs) }.     (* per query, per backend *)
+(* c_first: per query, per backend - the name bytes of the query that populated the cache entry this
+   query was served from (None, or a list that ends early: not served from the cache) *)
+Record case := mkC { c_file : fcase; c_udp : list (list udpobs);       (* per query, per backend *)
+                     c_first : list (list (option bytes)) }.
 (* the dump of the v2 database the real compiler wrote satisfies the guard of C13_no_panic_v2 *)
 Definition guard_ok (c : case) : bool :=
   if f_compiled (c_file c) then wf_store_v2 (f_v2 (c_file c)) else true.
-Definition model_ok (c : case) : bool := serve_model_ok (c_file c) && guard_ok c.
+
+(* what the model owes for a query served from an entry populated under the spelling [a]: the
+   outcome for the request renamed to [a], with this request's question put back (Model/Compose:
+   rename, requestion; a BADVERS reply has no question) *)
+Definition serve_obs_first (c : fcase) (q : qcase) (a : option bytes) (b : backend) (ob : obs) : outcome :=
+  match a with
+  | None => serve_obs c q b ob
+  | Some a =>
+      requestion (serve b (store_for c b) (rename (qc_q q) a) (o_loc ob) (o_ecs ob) (qc_max q))
+                 (match q_edns (qc_q q) with Some (Npos _) => None | _ => question_of (qc_q q) end)
+  end.
+Fixpoint backends_first_ok (c : fcase) (q : qcase) (bs : list backend) (os : list obs) (fs : list (option bytes)) : bool :=
+  match bs, os with
+  | [], [] => true
+  | b :: bs', ob :: os' =>
+      outcome_matches (serve_obs_first c q (hd None fs) b ob) ob && backends_first_ok c q bs' os' (tl fs)
+  | _, _ => false
+  end.
+(* with no spelling given this is Run.Core.query_model_ok *)
+Definition query_first_ok (c : fcase) (qf : qcase * list (option bytes)) : bool :=
+  backends_first_ok c (fst qf) backends (qc_obs (fst qf)) (snd qf).
+Fixpoint with_first (qs : list qcase) (fss : list (list (option bytes))) : list (qcase * list (option bytes)) :=
+  match qs with
+  | [] => []
+  | q :: qs' => (q, hd [] fss) :: with_first qs' (tl fss)
+  end.
+Definition serve_first_ok (c : case) : bool :=
+  if f_compiled (c_file c)
+  then forallb (query_first_ok (c_file c)) (with_first (f_qs (c_file c)) (c_first c)) else true.
+Definition model_ok (c : case) : bool := serve_first_ok c && guard_ok c.
 
 (* within the size the client advertised, or else truncated with TC set *)
 Definition udp_ok (u : udpobs) : bool :=
@@ -51,6 +89,6 @@ Definition spec_ok (c : case) : bool :=
   forallb (forallb udp_ok) (c_udp c).
 
 Definition model_out (c : case) :=
-  (bad_idx (query_model_ok (c_file c)) (f_qs (c_file c)),
+  (bad_idx (query_first_ok (c_file c)) (with_first (f_qs (c_file c)) (c_first c)),
    bad_idx (fun q => forallb (obs_wellformed (qc_q q)) (qc_obs q)) (f_qs (c_file c)),
    bad_idx (forallb udp_ok) (c_udp c)).
